@@ -131,6 +131,9 @@ def st_case(draw: st.DrawFn, tier: str, sut: str) -> dict:
         "clients": clients,
         "pre_serve": draw(st.integers(0, 5)) == 0,
         "send_yield": draw(st.lists(st.sampled_from([0, 0, 1, 2]), min_size=1, max_size=3)),
+        # None: asyncio's own locks (a free lock is taken without yielding); else rounds per acquisition, cyclic
+        "listener": draw(st.sampled_from(["mem", "mem", "asyncio"])) if sut == "lowlevel" else "mem",
+        "checkpointing_locks": draw(st.one_of(st.none(), st.none(), st.lists(st.integers(0, 3), min_size=1, max_size=5))),
     }
 
 
@@ -356,9 +359,65 @@ class ScriptHandler(AsyncDatagramRequestHandler[Any, Any]):
 # driver
 
 
+class _YieldPlan:
+    """how many scheduler rounds the k-th lock/condition acquisition of a run takes before it even tries (cyclic)"""
+
+    def __init__(self, yields: list[int]) -> None:
+        self.yields = yields or [1]
+        self.k = 0
+
+    async def pause(self) -> None:
+        n = self.yields[self.k % len(self.yields)]
+        self.k += 1
+        for _ in range(n):
+            await asyncio.sleep(0)
+
+
+class _CheckpointingCondition(asyncio.Condition):
+    """asyncio.Condition with the rule of other backends (trio): acquiring is a checkpoint, after which the task is
+    rescheduled in no particular order relative to the others - modelled as a generated number of scheduler rounds"""
+
+    plan: _YieldPlan
+
+    async def __aenter__(self) -> None:
+        await self.plan.pause()
+        await self.acquire()
+        return None
+
+
+class _CheckpointingLock(asyncio.Lock):
+    plan: _YieldPlan
+
+    async def __aenter__(self) -> None:
+        await self.plan.pause()
+        await self.acquire()
+        return None
+
+
+class _CheckpointingLocksBackend(VerifBackend):
+    """the backend interface does not promise that taking a free lock/condition is atomic (on trio it is a checkpoint):
+    the same server code must keep its ordering guarantees when an acquisition lets other tasks run first"""
+
+    __slots__ = ("plan",)
+
+    def __init__(self, yields: list[int]) -> None:
+        super().__init__()
+        self.plan = _YieldPlan(yields)
+
+    def create_condition_var(self, lock: Any = None) -> Any:
+        c = _CheckpointingCondition()
+        c.plan = self.plan
+        return c
+
+    def create_lock(self) -> Any:
+        lk = _CheckpointingLock()
+        lk.plan = self.plan
+        return lk
+
+
 async def _drive(case: dict, script: Script) -> dict:
     loop = asyncio.get_running_loop()
-    backend = VerifBackend()
+    backend = _CheckpointingLocksBackend(case["checkpointing_locks"]) if case.get("checkpointing_locks") else VerifBackend()
     entry = zoo.build(SPEC)
     protocol = entry.datagram_protocol()
     times = arrival_times(case)
@@ -369,8 +428,29 @@ async def _drive(case: dict, script: Script) -> dict:
 
     n_pre = 0
     if case["sut"] == "lowlevel":
-        listener = MemDatagramListener(backend, script=lscript)
-        server = AsyncDatagramServer(listener, protocol)
+        if case.get("listener") == "asyncio":
+            # the real asyncio datagram listener (DatagramListenerProtocol + adapter) over the fake selector datagram transport
+            from easynetwork.lowlevel.api_async.backend._asyncio.datagram.listener import DatagramListenerProtocol, DatagramListenerSocketAdapter
+
+            from ..fakeasyncio import FakeAsyncioDatagramTransport
+
+            aio_protocol = DatagramListenerProtocol(loop=loop)
+            aio_transport = FakeAsyncioDatagramTransport(loop, aio_protocol, address=None, kernel_slots=None)
+            real_listener = DatagramListenerSocketAdapter(backend, aio_transport, aio_protocol)
+
+            class _Shim:
+                def deliver(self, data: bytes, addr: tuple) -> None:
+                    aio_transport.feed(data, addr)
+
+                @property
+                def sent(self) -> list:
+                    return [(d, a) for d, a in aio_transport.wire]
+
+            listener: Any = _Shim()
+            server = AsyncDatagramServer(real_listener, protocol)
+        else:
+            listener = MemDatagramListener(backend, script=lscript)
+            server = AsyncDatagramServer(listener, protocol)
         if case["pre_serve"]:
             # datagrams received before serve() is awaited are queued by the listener and dispatched first
             while n_pre < len(arrivals) and times[n_pre] == 0:
@@ -606,7 +686,9 @@ CHECK = Check(
         "case = arrival script of 1-12 datagrams (integer virtual gap incl. same-instant bursts, 0-3 extra loop iterations inside "
         "the tick, address 1-3, well-formed/malformed) x per-address handler script (generator scripts: checkpoints/virtual sleeps "
         "before the first yield and after each request, 0-4 requests per generator, exception after the j-th request [high-level], "
-        "yielded timeouts None / k+2^-(j+1), reactions to TimeoutError and parse errors, responses); per-address handler log with "
+        "yielded timeouts None / k+2^-(j+1), reactions to TimeoutError and parse errors, responses) x listener (in-memory | the real asyncio "
+        "DatagramListenerProtocol+adapter over a fake selector datagram transport) x lock/condition acquisitions atomic or taking 0-3 generated "
+        "scheduler rounds; per-address handler log with "
         "virtual times must equal the per-address reference model (which tracks the documented discard of a datagram whose generator "
         "ends before its first yield), at most one active generator per address, exactly-once finalisation, serving task alive; "
         "non-trivial = a datagram arrives while that client's generator is active or in the very tick it finishes; distinct = sha1"
@@ -616,7 +698,8 @@ CHECK = Check(
         Layer("highlevel", _strategy("highlevel"), run_case, {"quick": 1200, "thorough": 8000}),
     ],
     assumptions=[
-        "the in-memory listener starts one task per datagram in arrival order (mirrors datagram/listener.py); ordering inside the kernel "
+        "the in-memory listener starts one task per datagram in arrival order (mirrors datagram/listener.py; the real listener protocol is "
+        "a generated variant of the lowlevel layer); ordering inside the kernel "
         "or the selector is out of scope",
         "arrivals and handler sleeps are integers, timeouts k+2^-(j+1): a deadline never coincides with an arrival; a timeout of exactly 0 "
         "is not generated at yields where the server honours it",
